@@ -531,28 +531,28 @@ pub fn c16_from_rows_list_rejects_n3() {
     from_rows::<3, 4>(0, false);
 }
 
-// @verif prop=C16 tier=quick fl=f1 feat=map4 role=from-rows/adjacency-map t=1200 mem=12
+// @verif prop=C16 tier=thorough fl=f1 feat=map4 role=from-rows/adjacency-map t=3600 mem=24
 #[cfg_attr(kani, kani::proof)]
 #[cfg_attr(kani, kani::unwind(10))]
 pub fn c16_from_rows_map_n3() {
     from_rows::<3, 4>(1, true);
 }
 
-// @verif prop=C16 tier=quick fl=f1 feat=map4 role=from-rows-rejects/adjacency-map t=1200 mem=12 expect=panic
+// @verif prop=C16 tier=thorough fl=f1 feat=map4 role=from-rows-rejects/adjacency-map t=3600 mem=24 expect=panic
 #[cfg_attr(kani, kani::proof)]
 #[cfg_attr(kani, kani::unwind(10))]
 pub fn c16_from_rows_map_rejects_n3() {
     from_rows::<3, 4>(1, false);
 }
 
-// @verif prop=C16 tier=quick fl=f1 role=from-rows/weighted t=1500 mem=24
+// @verif prop=C16 tier=thorough fl=f1 role=from-rows/weighted t=3600 mem=30
 #[cfg_attr(kani, kani::proof)]
 #[cfg_attr(kani, kani::unwind(10))]
 pub fn c16_from_weight_rows_n3() {
     from_weight_rows::<3, 4>(true);
 }
 
-// @verif prop=C16 tier=quick fl=f1 role=from-rows-rejects/weighted t=1500 mem=24 expect=panic
+// @verif prop=C16 tier=thorough fl=f1 role=from-rows-rejects/weighted t=3600 mem=30 expect=panic
 #[cfg_attr(kani, kani::proof)]
 #[cfg_attr(kani, kani::unwind(10))]
 pub fn c16_from_weight_rows_rejects_n3() {
@@ -560,7 +560,7 @@ pub fn c16_from_weight_rows_rejects_n3() {
 }
 
 // AdjacencyMatrix::from(1..=3 arcs with ids < 4, duplicates allowed): order = largest id + 1, exactly those arcs.
-// @verif prop=C16 tier=quick fl=f0 role=from-arcs/matrix t=1500 mem=24
+// @verif prop=C16 tier=thorough fl=f0 role=from-arcs/matrix t=3600 mem=30
 #[cfg_attr(kani, kani::proof)]
 #[cfg_attr(kani, kani::unwind(10))]
 pub fn c16_from_arcs_matrix_k3() {
@@ -629,4 +629,40 @@ pub fn c16_map_to_edge_list_n2() {
 #[cfg_attr(kani, kani::unwind(8))]
 pub fn c16_edge_list_to_map_n2() {
     convert::<EdgeList, AdjacencyMap, 2>();
+}
+
+// @verif prop=C16 tier=quick fl=f1 feat=map4 role=from-rows/adjacency-map t=1200 mem=16
+#[cfg_attr(kani, kani::proof)]
+#[cfg_attr(kani, kani::unwind(8))]
+pub fn c16_from_rows_map_n2() {
+    from_rows::<2, 3>(1, true);
+}
+
+// @verif prop=C16 tier=quick fl=f1 feat=map4 role=from-rows-rejects/adjacency-map t=1200 mem=16 expect=panic
+#[cfg_attr(kani, kani::proof)]
+#[cfg_attr(kani, kani::unwind(8))]
+pub fn c16_from_rows_map_rejects_n2() {
+    from_rows::<2, 3>(1, false);
+}
+
+// @verif prop=C16 tier=quick fl=f1 feat=map4 role=from-rows/weighted t=1200 mem=16
+#[cfg_attr(kani, kani::proof)]
+#[cfg_attr(kani, kani::unwind(8))]
+pub fn c16_from_weight_rows_n2() {
+    from_weight_rows::<2, 3>(true);
+}
+
+// @verif prop=C16 tier=quick fl=f1 feat=map4 role=from-rows-rejects/weighted t=1200 mem=16 expect=panic
+#[cfg_attr(kani, kani::proof)]
+#[cfg_attr(kani, kani::unwind(8))]
+pub fn c16_from_weight_rows_rejects_n2() {
+    from_weight_rows::<2, 3>(false);
+}
+
+// AdjacencyMatrix::from(1..=2 arcs with ids < 4).
+// @verif prop=C16 tier=quick fl=f0 role=from-arcs/matrix t=1200 mem=20
+#[cfg_attr(kani, kani::proof)]
+#[cfg_attr(kani, kani::unwind(10))]
+pub fn c16_from_arcs_matrix_k2() {
+    from_arcs::<2, 4>(0);
 }
